@@ -328,7 +328,8 @@ static void gp_delete_scope_factory(void*_factory)
     if (remaining != (GPScope*)factory)
         gp_end_scopes(remaining, NULL);
 
-    gp_mem_dealloc(gp_heap, factory->head);
+    GPArena factory_arena = *factory; // factory lives in its own first node
+    gp_arena_delete(&factory_arena);  // all nodes, not just the newest
 }
 
 // Make Valgrind shut up.
